@@ -10,8 +10,10 @@ EXTENDS FsBase
 
 AllDevs == {"C02.create_user_lowercase_keyword", "C02.user_name_not_folded"}
 
-Spellings == {"lower", "upper", "mixed", "qlower", "qupper", "qmixed"}
-Fold(sp) == CASE sp \in {"lower", "upper", "mixed", "qupper"} -> "AB" [] sp = "qlower" -> "ab" [] sp = "qmixed" -> "Ab"
+\* fnlower / fnmixed: the name given through the IDENTIFIER('ab') / IDENTIFIER('Ab') function - an unquoted spelling
+Spellings == {"lower", "upper", "mixed", "qlower", "qupper", "qmixed", "fnlower", "fnmixed"}
+FnSp == {"fnlower", "fnmixed"}
+Fold(sp) == CASE sp \in {"lower", "upper", "mixed", "qupper", "fnlower", "fnmixed"} -> "AB" [] sp = "qlower" -> "ab" [] sp = "qmixed" -> "Ab"
 Kinds == {"table", "view", "column", "schema", "alias", "variable"}
 InitSt == [made |-> [k \in Kinds |-> {}]]
 
@@ -44,19 +46,26 @@ Stmts(kind) == CASE kind = "table" -> {"select", "insert", "update", "delete", "
                  [] kind = "view" -> {"select", "describe"}
                  [] kind = "column" -> {"select", "where", "insert_cols", "update_set", "orderby"}
                  [] kind = "schema" -> {"use", "qualify", "createin", "describe_in", "use_then_describe"}
-                 [] kind = "alias" -> {}
+                 \* an alias of the select list referred to in the same statement's JOIN ... ON / ORDER BY
+                 [] kind = "alias" -> {"join_on", "orderby"}
                  [] kind = "variable" -> {"select"}
 Channels(kind) == CASE kind = "table" -> {"info_tables", "show_tables", "show_objects"}
                     [] kind = "view" -> {"info_views", "show_objects", "info_tables"}
                     [] kind = "column" -> {"description", "dictkeys", "info_columns", "describe"}
                     [] kind = "schema" -> {"show_schemas", "conn_schema"}
-                    [] kind = "alias" -> {"description", "dictkeys"}
+                    \* collist_* / cte_*: the name given in an alias column list  (values ...) AS v(ab)  /  WITH c(ab) AS ...
+                    [] kind = "alias" -> {"description", "dictkeys", "collist_description", "collist_dictkeys", "cte_description"}
                     [] kind = "variable" -> {}
-SpOf(kind) == IF kind = "variable" THEN {"lower", "upper", "mixed"} ELSE Spellings
+SpOf(kind) == IF kind = "variable" THEN {"lower", "upper", "mixed"}
+              ELSE IF kind \in {"table", "view", "schema"} THEN Spellings ELSE Spellings \ FnSp
+\* where fakesnow supports IDENTIFIER(): CREATE of tables / views / schemas and plain queries / DML on them
+FnOk(o) == /\ o.sp2 \notin FnSp
+           /\ (o.sp \in FnSp => (o.kind = "table" /\ o.stmt \in {"select", "insert", "update", "delete", "join"})
+                                \/ (o.kind = "view" /\ o.stmt = "select"))
 CONSTANTS KindsUsed
 Ops(st) ==
   UNION {(IF st.made[kd] = {} THEN [k : {"make"}, kind : {kd}, sp : SpOf(kd), kw : {"lower", "upper", "mixed"}] ELSE {})
-         \cup [k : {"find"}, kind : {kd}, sp : SpOf(kd), stmt : Stmts(kd), kw : {"lower", "upper", "mixed"}, sp2 : SpOf(kd)]
+         \cup {o \in [k : {"find"}, kind : {kd}, sp : SpOf(kd), stmt : Stmts(kd), kw : {"lower", "upper", "mixed"}, sp2 : SpOf(kd)] : FnOk(o)}
          \cup [k : {"names"}, kind : {kd}, ch : Channels(kd)] : kd \in KindsUsed \cap Kinds}
   \cup [k : {"kwcase"}, what : {"create_user"}, name : {"ZED"}, kw : {"lower", "upper", "mixed"}]
 
